@@ -47,8 +47,10 @@ type insp struct {
 func (in *insp) viol(key, format string, a ...interface{}) {
 	in.out.Violations = append(in.out.Violations, inspViolation{key, fmt.Sprintf(format, a...)})
 }
-func (in *insp) count(k string)                         { in.out.Counters[k]++ }
-func (in *insp) note(format string, a ...interface{}) { in.out.Notes = append(in.out.Notes, fmt.Sprintf(format, a...)) }
+func (in *insp) count(k string) { in.out.Counters[k]++ }
+func (in *insp) note(format string, a ...interface{}) {
+	in.out.Notes = append(in.out.Notes, fmt.Sprintf(format, a...))
+}
 
 func (in *insp) stage(s string) {
 	f, err := os.OpenFile(in.outPath+".stage", os.O_CREATE|os.O_WRONLY|os.O_APPEND, 0644)
